@@ -167,7 +167,8 @@ func c18Conn(c *Ctx) error {
 		}
 		c.count(tag, n > 0, "site=server-receive", fmt.Sprintf("lenclass=%s", lenClass(n)))
 	}
-	return nil
+	// (c) a masked frame shared by several client connections (Broadcaster) while their transport writes overlap
+	return sharedBroadcastFrameScenario(c)
 }
 
 func lenClass(n int) string {
